@@ -3,7 +3,7 @@ file type with extension, path (directory), explicit output names, arrays and
 typed maps of files, structs containing files, nested combinations, null and
 missing files, symbolic links, strings that hold paths."""
 from mro import (call, const, pipeline, program, ref, self_, split, stage, struct, INST, FILE, FILES, FMAP, FSTR, FSTRUCT,
-                 FDIR, FMSTRUCT, FASTRUCT, FILES11, FMISSING, FLINK, FLINK2, FSM)
+                 FDIR, FMSTRUCT, FASTRUCT, FILES11, FMISSING, FLINK, FLINK2, FSM, FPLINK, FOUTSIDE)
 
 FT = ("txt", "bam.bai")
 
@@ -35,6 +35,8 @@ def catalogue():
     P.append(one("po_nulls", [FS], "file f, txt t, FS s, file gone, string p, map m",
                  {"f": const(None), "t": const(None), "s": const(None), "gone": FMISSING, "p": FSTR, "m": const({"k": 1})}))
     P.append(one("po_links", [], "file l, file f, txt chain", {"l": FLINK, "f": FILE, "chain": FLINK2}))
+    P.append(one("po_outside", [FS], "file o, txt t, file[] os, FS s, file inside",
+                 {"o": FOUTSIDE, "t": FOUTSIDE, "os": const(None), "s": const(None), "inside": FILE}))
     # a struct whose path-ish members (string, map) come before its file member
     P.append(one("po_struct_order", [struct("SM", "string label, map m, file f")], "SM sm, SM[] sms",
                  {"sm": FSM, "sms": const([])}))
@@ -48,6 +50,16 @@ def catalogue():
                                [call("SUB", binds={"x": self_("x")}), call("A", binds={"x": self_("x")}), call("B", binds={"x": self_("x")})],
                                {"first": ref("SUB", "inner"), "second": ref("B", "f"), "third": ref("A", "f"), "packed": ref("A", "s")})],
                      "TOP", {"x": 1}, filetypes=FT))
+    # a stage passes its input file through as a relative symbolic link; the file it points
+    # at is an earlier top-level output produced at another depth of the pipestance
+    P.append(program("po_passthrough", [],
+                     [stage("A", "int x", "txt data", {"data": FILE}), stage("L", "txt inp", "txt alias", {"alias": FPLINK})],
+                     [pipeline("SUB", "int x", "txt data", [call("A", binds={"x": self_("x")})], {"data": ref("A", "data")}),
+                      pipeline("TOP", "int x", "txt data, txt alias, txt again",
+                               [call("SUB", binds={"x": self_("x")}), call("L", binds={"inp": ref("SUB", "data")}),
+                                call("L2", "L", binds={"inp": ref("L", "alias")})],
+                               {"data": ref("SUB", "data"), "alias": ref("L", "alias"), "again": ref("L2", "alias")})],
+                     "TOP", {"x": 1}, filetypes=FT))
     # mapped producer: arrays / maps of files assembled by the runtime
     P.append(program("po_mapped", [],
                      [stage("A", "int x", "file f, txt t", {"f": FILE, "t": FILE})],
@@ -56,4 +68,21 @@ def catalogue():
                                 call("AM", "A", binds={"x": split(self_("xm"))}, mode="map")],
                                {"fs": ref("AA", "f"), "tm": ref("AM", "t")})],
                      "TOP", {"xs": [1, 2, 3], "xm": {"k1": 1, "k 2": 2}}, filetypes=FT))
+    return P
+
+
+def clash_catalogue():
+    """declarations in which two outputs / members would be sent to the same file name
+    (PostProc!Clash): the compiler has to refuse them; and near misses it must accept"""
+    P = []
+    P.append(one("pc_explicit_vs_id", [], "file summary, txt notes, file details = summary",
+                 {"summary": FILE, "notes": FILE, "details": FILE}))
+    P.append(one("pc_dir_vs_explicit", [], "txt[] plots, file archive = plots", {"plots": FILES, "archive": FILE}))
+    P.append(one("pc_two_explicit", [], "file a = same.bin, txt b = same.bin", {"a": FILE, "b": FILE}))
+    P.append(one("pc_ext_vs_explicit", [], "txt foo, file x = foo.txt", {"foo": FILE, "x": FILE}))
+    P.append(one("pc_struct_members", [struct("CS", "file a, txt b = a, int n")], "CS s", {"s": const(None)}))
+    P.append(one("pc_map_vs_explicit", [], "map<txt> tm, path d = tm", {"tm": FMAP, "d": FDIR}))
+    # near misses: distinct names
+    P.append(one("pn_ext_differs", [], "txt foo, file x = foo", {"foo": FILE, "x": FILE}))
+    P.append(one("pn_nonfile_same", [], "int summary2, file details = summary2", {"summary2": const(1), "details": FILE}))
     return P
